@@ -1,15 +1,145 @@
-(* Props/C01.v — key-mode round trip (chunk layer so far; handshake and file layer are being added). *)
+(* Props/C01.v — property C01: key-mode round trip, decryption names the sender.
+   Statements only; proofs are in Proofs/CombineFiles.v (which combines FilesFacts, NoiseFacts, ChunksEnc, ChunksDec).
+
+   Reading guide.  [P : prims] is the record of external primitives (SHA-256, HMAC, HKDF, X25519, the AEAD,
+   scrypt); [aead_ok P] = open inverts seal + length laws, [hash_ok P] = output lengths only; both are PROVED
+   for the RFC instance (Spec/Concrete.v).  [dh_comm P] (X25519 commutativity, p_dh a (pub b) = p_dh b (pub a))
+   is an EXPLICIT HYPOTHESIS: it is the group law of Curve25519 and is not proved in this development.
+   An [io] state is a scripted reader (data + what each Read::read call does), a scripted writer (accepted
+   bytes + what each Write::write / flush call does) and an event log.  [reader_ok]/[writer_ok] = conforming
+   fault-free scripts: every call makes progress (delivers / accepts >= 1 byte, possibly fewer than asked),
+   nothing fails.  Quantifying over all such io states is quantifying over EVERY plaintext (r_data of the
+   encryptor's reader, any length including 0, 65535, 65536, 65537, k*65536) and EVERY way of splitting
+   reads and writes on both the encrypt and the decrypt side.
+   [all_zero (p_dh ...) = false] : neither Diffie-Hellman output is the all-zero string (otherwise
+   encryption is refused — see C05).  The model's chunk size is the extracted constant 65536. *)
 From Kestrel Require Import Bytes Outcome IO Prims.
-From Kestrel.Model Require Import AeadWrap Chunks.
-From Kestrel.Proofs Require Import ChunksDec.
+From Kestrel.gen Require Import Extracted.
+From Kestrel.Model Require Import AeadWrap Chunks Noise NoiseSpec Files FilesSpec ChunksSpec CombineDefs.
+From Kestrel.Proofs Require Import ChunksDec ChunksEnc CombineFiles.
 Local Open Scope N_scope.
 
+(* THE PROPERTY, injected ephemeral / payload keys.  For all primitives with the laws above; all 32-byte sender, ephemeral and recipient private keys s, e, r and 32-byte payload key pk (fresh_pk / fresh_e are the unused random draws); spk, epk, rpk their public keys; both DH outputs non-zero; every encrypt-side io state s0 with conforming scripts and an empty sink: key_encrypt returns Ok, and for EVERY decrypt-side io state s1 with conforming scripts whose data is exactly the bytes written and whose sink is empty, key_decrypt under (r, rpk) returns Ok spk — the sender's static public key — and the bytes it wrote are exactly the original plaintext r_data (rdr s0). *)
+Theorem C01_key_file_roundtrip :
+  forall (P : prims) (fresh_pk fresh_e : bytes) (s e r pk : list N) (spk epk rpk : bytes),
+  aead_ok P ->
+  hash_ok P ->
+  dh_comm P ->
+  length s = 32%nat ->
+  length e = 32%nat ->
+  length r = 32%nat ->
+  length pk = 32%nat ->
+  spk = dh_pub P s ->
+  epk = dh_pub P e ->
+  rpk = dh_pub P r ->
+  all_zero (p_dh P e rpk) = false ->
+  all_zero (p_dh P s rpk) = false ->
+  forall s0 : io,
+  reader_ok (rdr s0) ->
+  writer_ok (wtr s0) ->
+  w_out (wtr s0) = [] ->
+  exists s0' : io,
+    key_encrypt P fresh_pk fresh_e s spk rpk (Some e) (Some epk) (Some pk) s0 = (Ok tt, s0') /\
+    (forall s1 : io,
+     reader_ok (rdr s1) ->
+     writer_ok (wtr s1) ->
+     r_data (rdr s1) = w_out (wtr s0') ->
+     w_out (wtr s1) = [] ->
+     exists s1' : io, key_decrypt P r rpk s1 = (Ok spk, s1') /\ w_out (wtr s1') = r_data (rdr s0)).
+Proof. exact (key_file_roundtrip). Qed.
+Print Assumptions C01_key_file_roundtrip.
+
+(* the same when the ephemeral private key and the payload key are NOT injected: they are the 32 random bytes fresh_e, fresh_pk drawn by the implementation (None None None) *)
+Theorem C01_key_file_roundtrip_fresh :
+  forall (P : prims) (fresh_pk fresh_e s r : list N) (spk rpk : bytes),
+  aead_ok P ->
+  hash_ok P ->
+  dh_comm P ->
+  length s = 32%nat ->
+  length fresh_e = 32%nat ->
+  length r = 32%nat ->
+  length fresh_pk = 32%nat ->
+  spk = dh_pub P s ->
+  rpk = dh_pub P r ->
+  all_zero (p_dh P fresh_e rpk) = false ->
+  all_zero (p_dh P s rpk) = false ->
+  forall s0 : io,
+  reader_ok (rdr s0) ->
+  writer_ok (wtr s0) ->
+  w_out (wtr s0) = [] ->
+  exists s0' : io,
+    key_encrypt P fresh_pk fresh_e s spk rpk None None None s0 = (Ok tt, s0') /\
+    (forall s1 : io,
+     reader_ok (rdr s1) ->
+     writer_ok (wtr s1) ->
+     r_data (rdr s1) = w_out (wtr s0') ->
+     w_out (wtr s1) = [] ->
+     exists s1' : io, key_decrypt P r rpk s1 = (Ok spk, s1') /\ w_out (wtr s1') = r_data (rdr s0)).
+Proof. exact (key_file_roundtrip_fresh). Qed.
+Print Assumptions C01_key_file_roundtrip_fresh.
+
+(* general form covering both (eph_of / payload_of select injected or fresh values), sinks that already hold bytes (F is what this run appended; the decryptor appends the plaintext to what its sink held), and additionally: the decryptor consumed the whole file (r_data (rdr s1') = []) *)
+Theorem C01_key_file_roundtrip_gen :
+  forall (P : prims) (fresh_pk fresh_e : bytes) (s r : list N) (e epk pk : option bytes) (e' : bytes),
+  aead_ok P ->
+  hash_ok P ->
+  dh_comm P ->
+  eph_of P fresh_e e epk = (e', dh_pub P e') ->
+  length e' = 32%nat ->
+  length s = 32%nat ->
+  length r = 32%nat ->
+  length (payload_of fresh_pk pk) = 32%nat ->
+  all_zero (p_dh P e' (dh_pub P r)) = false ->
+  all_zero (p_dh P s (dh_pub P r)) = false ->
+  forall s0 : io,
+  reader_ok (rdr s0) ->
+  writer_ok (wtr s0) ->
+  exists (s0' : io) (F : list N),
+    key_encrypt P fresh_pk fresh_e s (dh_pub P s) (dh_pub P r) e epk pk s0 = (Ok tt, s0') /\
+    w_out (wtr s0') = w_out (wtr s0) ++ F /\
+    (forall s1 : io,
+     reader_ok (rdr s1) ->
+     writer_ok (wtr s1) ->
+     r_data (rdr s1) = F ->
+     exists s1' : io,
+       key_decrypt P r (dh_pub P r) s1 = (Ok (dh_pub P s), s1') /\
+       w_out (wtr s1') = w_out (wtr s1) ++ r_data (rdr s0) /\ r_data (rdr s1') = []).
+Proof. exact (key_file_roundtrip_gen). Qed.
+Print Assumptions C01_key_file_roundtrip_gen.
+
+(* (kept from the earlier version) chunk layer: every legal chunking of a plaintext decrypts under every conforming schedule *)
 Theorem C01_chunks_decrypt_under_every_schedule :
-  forall (P : prims) (key aad : bytes) (cs : N), length key = 32%nat -> aead_ok P -> cs < 4294967296 ->
-  forall chunks n s fuel, chunks <> [] -> Forall (chunk_ok cs) chunks ->
-    reader_ok (rdr s) -> writer_ok (wtr s) ->
-    r_data (rdr s) = spec_chunks_from P key aad n chunks -> (length chunks <= fuel)%nat ->
-    exists s', decrypt_chunks_loop P fuel key aad cs n s = (Ok tt, s') /\
-               w_out (wtr s') = w_out (wtr s) ++ concat chunks /\ r_data (rdr s') = [].
-Proof. intros P key aad cs Hk Ha Hc. exact (dec_spec_chunks_ok P key aad cs Hk Ha Hc). Qed.
+  forall (P : prims) (key aad : bytes) (cs : N),
+  length key = 32%nat ->
+  aead_ok P ->
+  cs < 4294967296 ->
+  forall (chunks : list bytes) (n : N) (s : io) (fuel : nat),
+  chunks <> [] ->
+  Forall (chunk_ok cs) chunks ->
+  reader_ok (rdr s) ->
+  writer_ok (wtr s) ->
+  r_data (rdr s) = spec_chunks_from P key aad n chunks ->
+  (length chunks <= fuel)%nat ->
+  exists s' : io,
+    decrypt_chunks_loop P fuel key aad cs n s = (Ok tt, s') /\
+    w_out (wtr s') = w_out (wtr s) ++ concat chunks /\ r_data (rdr s') = [].
+Proof. exact (dec_spec_chunks_ok). Qed.
 Print Assumptions C01_chunks_decrypt_under_every_schedule.
+
+(* "every partition of the plaintext into positive-size reads" is covered by "every conforming reader": for every list of pieces (each non-empty, at most cs bytes) the reader that delivers exactly these pieces, one per call, is conforming ... *)
+Theorem C01_every_partition_is_a_conforming_reader :
+  forall cs : nat,
+  (1 <= cs)%nat ->
+  forall parts : list bytes, Forall (piece_ok cs) parts -> reader_ok (part_reader parts).
+Proof. exact (part_reader_ok). Qed.
+Print Assumptions C01_every_partition_is_a_conforming_reader.
+
+(* ... and the sequence of read results the encryptor obtains from it is exactly that list of pieces *)
+Theorem C01_partition_reader_delivers_partition :
+  forall (cs : nat) (parts : list bytes),
+  Forall (piece_ok cs) parts ->
+  reads_of cs {| r_data := concat parts; r_script := map (fun p : list N => RCap (length p)) parts |} =
+  parts.
+Proof. exact (reads_of_parts). Qed.
+Print Assumptions C01_partition_reader_delivers_partition.
+
